@@ -84,13 +84,23 @@ def slim(c):
 
 
 def run(rep, tier):
-    n = nontriv = nconn = 0
+    n = nontriv = nconn = nolists = 0
     for c, o in stream(rep, "C07", tier, 1):
         n += 1
         if c["full"]:
             nontriv += 1
         if "panic" in o or "resolved" not in o:
             rep.violation("stateres/panic-or-error", {"case": slim(c), "observed": o})
+            continue
+        # the intermediate results are read from ruma's own tracing events; where a build does not emit them (a log message
+        # reworded or removed) only the resolved state is compared, and the evidence says how many merges that concerned
+        observed = all(k in o for k in ("full", "power", "rest")) or not c["full"]
+        if not observed:
+            nolists += 1
+            if st(o["resolved"]) != st(c["resolved"]) and st(o["resolved"]) != st(c["resolved_oldest"]) and st(o["resolved"]) != st(c["variants"][1]["resolved"]):
+                rep.violation("stateres/resolved-state", {"case": slim(c), "expected": c["resolved"], "observed": o["resolved"]})
+            elif st(o["resolved"]) != st(c["resolved"]):
+                rep.violation(KNOWN, {"case": slim(c), "spec_resolved": c["resolved"], "observed_resolved": o["resolved"]})
             continue
         if c["full"] and sorted(o.get("full", [])) != sorted(c["full"]):
             rep.violation("stateres/full-conflicted-set", {"case": slim(c), "expected": sorted(c["full"]), "observed": o.get("full")})
@@ -128,7 +138,7 @@ def run(rep, tier):
     for c, o in zip(cases, obs):
         if o.get("order") != c["order"]:
             rep.violation("toposort/wrong-order", {"case": c, "observed": o})
-    rep.part("replay", merges=n, lists_following_the_connected_reading_of_the_power_set=nconn)
+    rep.part("replay", merges=n, lists_following_the_connected_reading_of_the_power_set=nconn, merges_without_observable_intermediate_lists=nolists)
     rep.cov["evaluations"] = n + len(cases)
     rep.cov["distinct_nontrivial"] = nontriv + len(cases)
     rep.cov["traces_validated_against_impl"] = n + len(cases)
